@@ -49,6 +49,8 @@ REQUIRED = [
     "enclosing_timeout_runs",
     "client_closed_during_race",
     "client_waiter_cancelled_during_race",
+    "real_connect_cases",
+    "real_in_progress_connect_abandoned",
 ]
 EXHAUSTIVE = {"quick": True, "thorough": True}
 WATCHDOG = {"quick": 900, "thorough": 7200}
@@ -365,6 +367,162 @@ def run_client_case(outcomes: list, delay: float, action: str, k: int, slot: str
     return res
 
 
+_REAL_ENV: dict = {}
+
+
+def _real_env() -> dict:
+    """one per worker process: a reachable loopback server, a black hole (listener whose accept queue is full: the kernel drops
+    further SYNs, a connect() to it stays in progress) and a port nobody listens on (refused at once)"""
+    if _REAL_ENV:
+        return _REAL_ENV
+    from vlib import netutil
+
+    good = socket.socket()
+    good.bind((netutil.rand_loopback(), 0))
+    good.listen(128)
+    hole = socket.socket()
+    hole.bind((netutil.rand_loopback(), 0))
+    hole.listen(0)
+    fillers = []
+    for _ in range(3):
+        f = socket.socket()
+        f.setblocking(False)
+        f.connect_ex(hole.getsockname())
+        fillers.append(f)
+    closed = socket.socket()
+    closed.bind((netutil.rand_loopback(), 0))
+    refused = closed.getsockname()
+    closed.close()
+    _REAL_ENV.update(good=good, hole=hole, fillers=fillers, refused=refused)
+    return _REAL_ENV
+
+
+def run_real_case(shape: list[str], delay: float, action: str) -> dict:
+    """the real AsyncIODNSResolver.connect_socket() (loop.sock_connect on real non-blocking sockets): only the address list is
+    scripted. Addresses are 'ok' (reachable server), 'hang' (black hole: the connect stays in progress in the kernel) or 'refused'.
+    After the call ended (winner, failure, enclosing timeout or task.cancel()) nothing of the abandoned attempts is left behind in
+    the event loop: no pending task, no selector registration besides the returned socket; then a fresh connection to the reachable
+    server, which reuses the descriptor numbers of the abandoned sockets, completes."""
+    from easynetwork.lowlevel.api_async.backend._asyncio.dns_resolver import AsyncIODNSResolver
+
+    env = _real_env()
+    sockaddr = {"ok": env["good"].getsockname(), "hang": env["hole"].getsockname(), "refused": env["refused"]}
+    infos = [(socket.AF_INET, socket.SOCK_STREAM, 6, "", sockaddr[k]) for k in shape]
+    census = Census()
+    res: dict[str, Any] = {}
+
+    class Resolver(AsyncIODNSResolver):
+        async def ensure_resolved(self, backend, host, port, family, type, proto=0, flags=0):
+            return list(infos)
+
+    async def main(loop):
+        backend = AsyncIOBackend()
+        backend._AsyncIOBackend__dns_resolver = Resolver()  # type: ignore[attr-defined]
+        old = _dr._socket
+        _dr._socket = _SockModShim(make_tracking(census))  # type: ignore[assignment]
+        tasks_before = set(asyncio.all_tasks())
+        fds_before = set(loop._selector.get_map())
+        try:
+            async def call():
+                if action == "timeout":
+                    with backend.move_on_after(0.45):
+                        return await backend.create_tcp_connection("racing.test", 80, happy_eyeballs_delay=delay)
+                    return None
+                return await backend.create_tcp_connection("racing.test", 80, happy_eyeballs_delay=delay)
+
+            task = asyncio.ensure_future(call())
+            if action == "cancel":
+                loop.call_later(0.3, task.cancel)
+            loop.io_expected = lambda: not task.done() and "hang" not in shape
+            done, pending = await asyncio.wait([task], timeout=300)
+            loop.io_expected = None
+            if pending:
+                res["outcome"] = "hung"
+                task.cancel()
+                await asyncio.gather(task, return_exceptions=True)
+                return
+            stream = None
+            if task.cancelled():
+                res["outcome"] = "cancelled"
+            elif task.exception() is not None:
+                res["outcome"] = f"raised:{type(task.exception()).__name__}"
+            else:
+                stream = task.result()
+                res["outcome"] = "ok" if stream is not None else "timed-out"
+            for _ in range(6):
+                await asyncio.sleep(0)
+            res["created"] = len(census.created)
+            res["open"] = sum(1 for sck in census.created if sck.fileno() != -1)
+            left = [t for t in asyncio.all_tasks() if t not in tasks_before and t is not asyncio.current_task() and not t.done()]
+            res["leftover_tasks"] = [repr(t.get_coro())[:120] for t in left]
+            keep = set()
+            if stream is not None:
+                from easynetwork.lowlevel.socket import INETSocketAttribute
+
+                keep.add(stream.extra(INETSocketAttribute.socket).fileno())
+            res["stale_registrations"] = sorted(fd for fd in set(loop._selector.get_map()) - fds_before if fd not in keep)
+            # the next connection of the process gets the descriptor numbers the abandoned attempts had
+            nxt = asyncio.ensure_future(AsyncIOBackend().create_tcp_connection(*env["good"].getsockname()))  # numeric address: the stock resolver does not look anything up
+            loop.io_expected = lambda: not nxt.done()
+            done, pending = await asyncio.wait([nxt], timeout=30)
+            loop.io_expected = None
+            if pending:
+                res["next"] = "never-completed"
+                nxt.cancel()
+                await asyncio.gather(nxt, return_exceptions=True)
+            elif nxt.exception() is not None:
+                res["next"] = f"raised:{type(nxt.exception()).__name__}"
+            else:
+                res["next"] = "ok"
+                await nxt.result().aclose()
+            if stream is not None:
+                await stream.aclose()
+            for t in left:
+                t.cancel()
+            await asyncio.gather(*left, return_exceptions=True)
+        finally:
+            _dr._socket = old
+
+    try:
+        vloop.run(main)
+    except vloop.Quiescent as exc:
+        res["outcome"] = f"deadlock: {exc}"
+    for sck in census.created:
+        try:
+            sck.close()
+        except OSError:
+            pass
+    try:
+        env["good"].setblocking(False)
+        while True:
+            env["good"].accept()[0].close()
+    except OSError:
+        pass
+    return res
+
+
+def decide_real(shape: list[str], delay: float, action: str, res: dict) -> str | None:
+    oc = res.get("outcome")
+    if oc == "hung" or str(oc).startswith("deadlock"):
+        return f"create_tcp_connection never returned ({oc})"
+    winner_possible = "ok" in shape
+    if action == "none":
+        if winner_possible and oc != "ok" and not (delay == math.inf and "hang" in shape[: shape.index("ok")]):
+            return f"a reachable address was in the list and the call ended '{oc}'"
+        if not winner_possible and "hang" not in shape and not str(oc).startswith("raised"):
+            return f"every address refuses and the call ended '{oc}'"
+    want_open = 1 if oc == "ok" else 0
+    if res.get("open") != want_open:
+        return f"{res.get('open')} of the {res.get('created')} sockets created by the race are open after it ended '{oc}' (expected {want_open})"
+    if res.get("leftover_tasks"):
+        return f"the race ended '{oc}' and left pending tasks behind: {res['leftover_tasks']}"
+    if res.get("stale_registrations"):
+        return f"the race ended '{oc}' and left selector registrations for descriptors {res['stale_registrations']} it no longer owns"
+    if res.get("next") != "ok":
+        return f"after the race ended '{oc}', a fresh connection to a reachable server (reusing the abandoned descriptor numbers) ended '{res.get('next')}'"
+    return None
+
+
 def decide_client(outcomes, delay, action, res) -> str | None:
     wc = res.get("wc", "?")
     fired = "fire_it" in res
@@ -507,6 +665,24 @@ def run_shard(params: dict, ctx) -> None:
                 for k in range(0, K + 2):
                     for slot in ("before", "after"):
                         _one_client(ctx, outcomes, delay, action, k, slot, run_client_case(outcomes, delay, action, k, slot))
+    # real connects (loop.sock_connect on loopback): abandoned in-progress attempts leave nothing behind in the loop
+    if params["vectors"]:
+        shapes = [list(x) for n in (1, 2, 3) for x in itertools.product(("ok", "hang", "refused"), repeat=n) if "hang" in x]
+        mine = shapes[(params["vectors"][0][0] * 7 + len(params["vectors"])) % 5 :: 5] if params.get("tier") != "thorough" else shapes
+        for shape in mine:
+            for delay in (0.1, math.inf):
+                for action in ("none", "timeout", "cancel"):
+                    if action == "none" and ("ok" not in shape or (delay == math.inf and "hang" in shape[: shape.index("ok")])):
+                        continue  # would wait for the kernel's connect timeout
+                    r = run_real_case(shape, delay, action)
+                    ctx.count("real_connect_cases")
+                    if r.get("created", 0) > r.get("open", 0) + shape.count("refused") and r.get("outcome") in ("ok", "cancelled", "timed-out"):
+                        ctx.count("real_in_progress_connect_abandoned")
+                    ctx.case(True, "real", tuple(shape), delay, action)
+                    why = decide_real(shape, delay, action, r)
+                    if why:
+                        cat = "leak" if "are open" in why else "hang" if "never returned" in why else "left-behind"
+                        ctx.violation(f"real-{cat}:{action}", f"[real sockets] addresses={shape} delay={delay} {action}: {why}", {"real": True, "shape": shape, "delay": "inf" if delay == math.inf else delay, "action": action})
     for i in range(params["random"]):
         n = rng.randint(2, 5)
         outcomes = [rng.choice(OUTCOMES) for _ in range(n)]
@@ -545,6 +721,12 @@ def _one(ctx, fams, outcomes, delay, local, spec, res) -> None:
 
 
 def replay(witness: dict, ctx) -> None:
+    if witness.get("real"):
+        d = math.inf if witness["delay"] == "inf" else witness["delay"]
+        why = decide_real(witness["shape"], d, witness["action"], run_real_case(witness["shape"], d, witness["action"]))
+        if why:
+            ctx.violation("replayed:real", why, witness)
+        return
     delay = math.inf if witness["delay"] == "inf" else witness["delay"]
     if witness.get("client"):
         outcomes = [tuple(o) for o in witness["outcomes"]]
